@@ -317,6 +317,11 @@ class GraphInitializers(collections.UserDict[str, "_core.Value"]):
                 f"Value '{value}' is produced by a node and cannot be a graph initializer"
             )
         self._check_value(value)
+        if not value.name and value.const_value is not None:
+            # The value is going to be named after the key, which renames its backing tensor:
+            # probe now that the tensor accepts being renamed (see _core._check_value_can_be_named)
+            tensor = value.const_value
+            tensor.name = tensor.name
 
     def __setitem__(self, key: str, value: _core.Value) -> None:
         """Set an initializer for the graph."""
